@@ -9,7 +9,7 @@
    reproduces byte for byte. *)
 From Coq Require Import String NArith List Bool.
 From RC Require Import lib.Result model.Layout model.TrigTable model.RichCodec model.Str model.StrEditor model.Alloc
-  proofs.C04_proofs proofs.C04_readback proofs.C04_locations proofs.C04_cuwps proofs.C04_reload model.ChkIo proofs.C07_triggers proofs.C07_slots model.RichIo proofs.C08_proofs proofs.C09_proofs proofs.Save_strings proofs.Save_refs gen.GenTrig spec.SpecTrig gen.GenFlags gen.GenConsts.
+  proofs.C04_proofs proofs.C04_readback proofs.C04_locations proofs.C04_cuwps proofs.C04_reload proofs.C04_switches model.ChkIo gen.GenConsts proofs.C07_triggers proofs.C07_slots model.RichIo proofs.C08_proofs proofs.C09_proofs proofs.Save_strings proofs.Save_refs gen.GenTrig spec.SpecTrig gen.GenFlags gen.GenConsts.
 Import ListNotations.
 Local Open Scope N_scope.
 
@@ -184,3 +184,15 @@ Theorem C04_a_plain_action_survives_save_and_reload :
         (exists d, wav_duration cx args = Ok d /\ arg_get rarg a args' = Ok (AInt d)).
 Proof. exact plain_action_survives_save_and_reload. Qed.
 Print Assumptions C04_a_plain_action_survives_save_and_reload.
+
+(* ... switches: the number written for a NAMED switch names a slot of the rebuilt switch table carrying that number and the
+   switch's name - provided no switch with another name claims the same number (the recorded finding two-switches-one-index is
+   exactly that case; the premise states what it excludes) *)
+Theorem C04_the_number_written_for_a_named_switch_names_that_switch :
+  forall r sw s k,
+    RichIo.rebuild_swnm r = Ok sw -> find_switch_id s (snd sw) None = Some k -> (N.to_nat k < N.to_nat MAX_SWITCHES)%nat ->
+    rstr_empty (s_name s) = false ->
+    (forall u, In (u, k) (snd sw) -> rstr_empty (s_name u) = false -> sw_norm u = sw_norm s) ->
+    exists slot, nth_error (fst sw) (N.to_nat k) = Some slot /\ sw_norm slot = sw_norm s /\ s_idx slot = Some k.
+Proof. exact saved_switch_number_names_the_switch. Qed.
+Print Assumptions C04_the_number_written_for_a_named_switch_names_that_switch.
